@@ -54,20 +54,20 @@ Definition triple_ok (tbl : list (option nat * link)) (c : triple_case) : bool :
 
 (* (pulse-width driver?, output unit, counter period | analog voltage, get()) *)
 Definition sonar_case := (bool * nat * Q * option Q)%type.
-Definition sonar_ok (tbl : list (option nat * link)) (c : sonar_case) : bool :=
+Definition sonar_ok (K : sconsts) (tbl : list (option nat * link)) (c : sonar_case) : bool :=
   let '(pw, out, x, r) := c in
-  close_out 0 r (if pw then sonar_pw tbl out x else sonar_an tbl out x).
+  close_out 0 r (if pw then sonar_pw K tbl out x else sonar_an K tbl out x).
 
 (* (voltage_in, optional calibrate(p) at voltage vc, voltage v, .pressure) *)
 Definition pressure_case := (Q * option (Q * Q) * Q * option Q)%type.
-Definition pressure_ok (c : pressure_case) : bool :=
+Definition pressure_ok (K : sconsts) (c : pressure_case) : bool :=
   let '(vcc, cal, v, r) := c in
   let s0 := new_sensor vcc in
   match (match cal with
          | None => Val s0
-         | Some (vc, p) => calibrate s0 vc p
+         | Some (vc, p) => calibrate K s0 vc p
          end) with
-  | Val s => close_out 25 r (pressure s v)
+  | Val s => close_out 25 r (pressure K s v)
   | _ => false
   end.
 
